@@ -68,7 +68,7 @@ fire("group-hard", ["C03", "C13"], "Expr::Group", E("src/analyze.rs", "         
 fire("backref-gt", ["C13"], "group >= group_ix", E("src/analyze.rs", "                if group >= self.group_ix {", "                if group > self.group_ix {", 0))
 silent("concat-const-conservative", ["C13", "C07", "C03"], E("src/analyze.rs", "                    const_size &= child_info.const_size;\n                    hard |= child_info.hard;", "                    const_size &= child_info.const_size && child_info.min_size > 0;\n                    hard |= child_info.hard;"))
 silent("repeat-const-conservative", ["C13", "C07"], E("src/analyze.rs", "                const_size = child_info.const_size && lo == hi;", "                const_size = child_info.const_size && lo == hi && lo > 0;"))
-silent("repeat-min-branchy", ["C13", "C07"], E("src/analyze.rs", "                min_size = child_info.min_size.saturating_mul(lo);", "                min_size = if lo == 0 { 0 } else { child_info.min_size.saturating_mul(lo) };"))
+silent("repeat-min-branchy", ["C13", "C07"], E("src/analyze.rs", "                min_size = child_info.min_size.saturating_mul(lo.min(hi));", "                min_size = if lo == 0 { 0 } else { child_info.min_size.saturating_mul(lo.min(hi)) };"))
 # ---------------- slots / tables
 fire("delegate-slot-odd", ["C02"], "outer slot pair", E("src/vm.rs", "let slot = (start_group + i) * 2;", "let slot = (start_group + i) * 2 + 1;"))
 fire("delegate-reset-unmatched", ["C02", "C03"], "must keep its span", E("src/vm.rs", "                                    state.save(slot + 1, end.get());\n                                }", "                                    state.save(slot + 1, end.get());\n                                } else {\n                                    state.save(slot, usize::MAX);\n                                    state.save(slot + 1, usize::MAX);\n                                }"))
@@ -96,7 +96,8 @@ fire("depth-bypass", ["C06"], "increased depth", E("src/parse.rs", "            
 fire("max-recursion-huge", ["C06"], "MAX_RECURSION", E("src/lib.rs", "const MAX_RECURSION: usize = 64;", "const MAX_RECURSION: usize = 6400000;"))
 fire("numbered-unbounded", ["C06"], "bit set", E("src/parse.rs", "            if group < self.re.len() / 2 {", "            if group < usize::MAX / 2 {"))
 fire("atom-no-eof-test", ["C06"], "index!=len", E("src/parse.rs", "        let ix = self.optional_whitespace(ix)?;\n        if ix == self.re.len() {\n            return Ok((ix, Expr::Empty));\n        }\n        match self.re.as_bytes()[ix] {", "        let ix = self.optional_whitespace(ix)?;\n        match self.re.as_bytes()[ix] {"))
-fire("mul-unchecked", ["C06"], "overflow-mul", E("src/analyze.rs", "                min_size = child_info.min_size.saturating_mul(lo);", "                min_size = child_info.min_size * lo;"))
+fire("repeat-min-reversed-bounds", ["C07", "C13"], "unsound transfer function", E("src/analyze.rs", "saturating_mul(lo.min(hi));", "saturating_mul(lo);"))
+fire("mul-unchecked", ["C06"], "overflow-mul", E("src/analyze.rs", "                min_size = child_info.min_size.saturating_mul(lo.min(hi));", "                min_size = child_info.min_size * lo.min(hi);"))
 silent("depth-plus2", ["C06"], E("src/parse.rs", "        let depth = depth + 1;\n        if depth >= MAX_RECURSION {", "        let depth = depth + 2;\n        if depth >= MAX_RECURSION {"))
 silent("numbered-le", ["C06", "C19", "C01"], E("src/parse.rs", "            if group < self.re.len() / 2 {", "            if group <= self.re.len() / 2 {"))
 # ---------------- search panics
